@@ -6,8 +6,8 @@ META = {
     "rule": "S(T,N) all bytes symbolic; M(shape) free leaves symbolic (strict), and warn mode with every leaf "
             "unconstrained (value warnings only).",
     "bounds": {
-        "quick": "primitive types at their width; structure types (seed-rotated half) lengths m(T)..min(m(T)+2,9); "
-                 "command/response shapes of 16 seed-rotated command codes with all leaves symbolic, strict and warn",
+        "quick": "primitive types at their width; structure types (seed-rotated third) lengths m(T)..min(m(T)+2,9); "
+                 "command/response shapes of 9 seed-rotated command codes with all leaves symbolic, strict and warn; their M/size variants; two-pair streams incl. a bad-tag answer",
         "thorough": "all structure types lengths 0..min(m(T)+4,14); shapes of all 117 command codes",
     },
     "outside": "inputs that are neither within N nor an instance of an explored shape",
